@@ -32,7 +32,7 @@ ASSUMPTIONS = [
     'the XML declaration event is echoed verbatim by the serializer whatever the output encoding)',
     'domain exclusions of the statement: no TAB/LF/CR in attribute values, no CR in text, no unencodable characters in comments/PIs/CDATA',
     'documents have no internal DTD subset (the DOCTYPE event cannot carry it); names are XML names without ":" in local parts',
-    'builder trees: attribute/element local names are XML names, no attribute is literally called xmlns or xmlns:*',
+    'builder trees: attribute/element local names are XML names, no attribute is literally called xmlns or xmlns:*, text children are non-empty strings',
 ]
 
 
@@ -110,7 +110,9 @@ def tree_in_domain(tree):
         return True
     def ok(n):
         if n.get('t') == 't':
-            return isinstance(n.get('s'), str) and _xml_chars(n['s'])
+            # a zero-length string is no character data: XML has no empty text node, so a stream holding an empty
+            # TEXT event has no parsed counterpart (`<u></u>` is read back as `<u/>`); the generator writes 1-7 characters
+            return isinstance(n.get('s'), str) and n['s'] != '' and _xml_chars(n['s'])
         if n.get('t') != 'e' or not name_ok(n.get('name')):
             return False
         seen = set()
